@@ -617,6 +617,7 @@ func (fc *FnCtx) evalCallWith(st *State, call *ast.CallExpr, preRecv *Val, preAr
 		}
 	}
 	if pg, ok := fc.protoGetter(f); ok && recv != nil {
+		fc.checkCallPre(st, call, f, recv, []Val{})
 		return []Val{fc.evalProtoGetter(st, *recv, pg, fc.resultTypes(call)[0])}
 	}
 	var args []Val
@@ -1048,6 +1049,7 @@ func (fc *FnCtx) atomicCall(st *State, call *ast.CallExpr, f *types.Func) ([]Val
 
 func (fc *FnCtx) evalFuncValueCall(st *State, call *ast.CallExpr, preArgs []Val) []Val {
 	fv := fc.eval(st, call.Fun)
+	fc.bumpCall(st, exprText(call.Fun))
 	if r := fc.root(); r == fc && r.ct != nil && len(r.ct.CallPre[exprText(call.Fun)]) > 0 {
 		if sig, ok := fv.Ty.Underlying().(*types.Signature); ok {
 			args := preArgs
